@@ -45,6 +45,9 @@ SendFail == /\ Ev.ev = "SendFail"
             /\ On("C25", q[X].sends + q[X].fails + 1 <= 1 + gl.maxretries)
             /\ q' = [q EXCEPT ![X].sendfail = TRUE, ![X].fails = @ + 1] /\ UNCHANGED <<tr, c, gl>>
 
+\* a write that was stuck inside the transport (already counted by its Send event) failed
+SendBroke == /\ Ev.ev = "SendBroke" /\ q' = [q EXCEPT ![X].sendfail = TRUE] /\ UNCHANGED <<tr, c, gl>>
+
 AckReturned == /\ Ev.ev = "AckReturned"
                /\ q' = [q EXCEPT ![X].acked = @ \/ (q[X].sends > 0 /\ q[X].st = "running")]
                /\ UNCHANGED <<tr, c, gl>>
@@ -109,7 +112,7 @@ End == /\ Ev.ev = "End"
        /\ UNCHANGED <<tr, q, c, gl>>
 
 Next == /\ i <= Len(Trace) /\ i' = i + 1
-        /\ (Reset \/ DoStart \/ Send \/ SendDone \/ SendFail \/ AckReturned \/ ResultCall \/ ResultReturned \/ Write \/ Drop
+        /\ (Reset \/ DoStart \/ Send \/ SendDone \/ SendFail \/ SendBroke \/ AckReturned \/ ResultCall \/ ResultReturned \/ Write \/ Drop
             \/ DoReturn \/ Cancel \/ ForceClose \/ ForceCloseReturned \/ Close \/ CloseReturned \/ Other \/ Stuck \/ End)
 Spec == Init /\ [][Next]_vars
 
